@@ -366,6 +366,11 @@ func TestValidator_XTEXT(t *testing.T) {
 			t.Fatalf("A-XTEXT: %s does not invert on %+q: got %+q err=%v", c.name, s, d, err)
 		}
 		if c.name == "ucs2" {
+			// the three CMPP helpers produce the same image
+			if u1, err := cmpp.Utf8ToUcs2(s); err != nil || u1 != string(e) || cmpp.Utf8ToUcs2Back(s) != string(e) || cmpp.Utf8ToUcs2Pooled(s) != string(e) {
+				t.Logf("VALIDATOR-FAIL A-XTEXT codec=cmpp.Utf8ToUcs2* input=%+q: Utf8ToUcs2=%x (err %v) Back=%x Pooled=%x, UCS2 codec=%x", s, u1, err, cmpp.Utf8ToUcs2Back(s), cmpp.Utf8ToUcs2Pooled(s), e)
+				t.FailNow()
+			}
 			// and the image is the big-endian UTF-16 form
 			u := utf16.Encode([]rune(s))
 			if len(e) != 2*len(u) {
